@@ -360,6 +360,11 @@ class ThreadPoolServer(Server):
             self._active_connection_queue.put(None)
         for w in self.workers:
             w.join()
+        # terminate the clients that are still connected (the base class only knows sockets it is still
+        # accepting; established connections live in fd_to_conn)
+        for fd in list(self.fd_to_conn):
+            self._remove_from_inactive_connection(fd)
+            self._drop_connection(fd)
 
     def _remove_from_inactive_connection(self, fd):
         '''removes a connection from the set of inactive ones'''
